@@ -115,7 +115,8 @@ pub fn confirm(r: &mut Rng, n: usize, thorough: bool, out: &mut Out) {
                 1 => (epoch.saturating_sub(1), epoch),     // expired
                 _ => (epoch.saturating_sub(r.below(2)), epoch + 1 + r.below(2)),
             };
-            let amount = match r.below(5) {
+            let amount = match r.below(6) {
+                5 => 1u128 << 127, // two of these reach 2^128: the tallies saturate
                 0 => 1u128 << 126,
                 1 => 1u128 << 100,
                 _ => 1 + r.below(5) as u128,
